@@ -56,6 +56,11 @@ def _static_cases():
                 c = fn(h, m)
                 if c is None:
                     continue
+                for p in G.POD_PM_MOD:
+                    if not (fl.get("no_am_pod") and p.startswith("am ")):
+                        out.append({"n": "pod-pm-mod/%s" % cn, "f": "%s %s" % (c, p), "h": h + 12, "m": m, "ho": bool(fl.get("hour_only"))})
+                for p in G.POD_AM_MOD:
+                    out.append({"n": "pod-am-mod/%s" % cn, "f": "%s %s" % (c, p), "h": h, "m": m, "ho": bool(fl.get("hour_only"))})
                 for p in G.POD_PM:
                     if fl.get("no_am_pod") and p.startswith("am "):
                         continue
@@ -108,6 +113,24 @@ def gen_cases(tier, seed):
             req = datetime(d.year, d.month, d.day, i + 1, 0)
             for ref in (req - timedelta(minutes=1), req, req + timedelta(minutes=1)):
                 cases.append({"n": "named/latent", "f": w + " uhr", "h": i + 1, "m": 0, "lat": 1, "ts": C.iso(ref)})
+    # spoken quarter/half and '<clock> in the <part of day>' under anchoring
+    for pre, (dh, mm) in G.SPOKEN.items():
+        for h in range(24):
+            if tier != "thorough" and (h + len(pre)) % 4:
+                continue
+            d = ANCHOR_DATES[(h + len(pre)) % len(ANCHOR_DATES)]
+            hh = (h + dh) % 24
+            req = datetime(d.year, d.month, d.day, hh, mm)
+            for ref in (req - timedelta(minutes=1), req, req + timedelta(minutes=1)):
+                cases.append({"n": "spoken/%s/latent" % pre, "f": "%s %d uhr" % (pre, h), "h": hh, "m": mm, "lat": 1, "ts": C.iso(ref)})
+    for p in G.POD_PM + G.POD_AM:
+        for h in (1, 6, 11):
+            pm = p in G.POD_PM
+            d = ANCHOR_DATES[(h + len(p)) % len(ANCHOR_DATES)]
+            hh = h + 12 if pm else h
+            req = datetime(d.year, d.month, d.day, hh, 30)
+            for ref in (req - timedelta(minutes=1), req, req + timedelta(minutes=1)):
+                cases.append({"n": "pod-clock/latent", "f": "%d:30 %s" % (h, p), "h": hh, "m": 30, "lat": 1, "ts": C.iso(ref)})
     for w in G.MIDNIGHT:
         for d in ANCHOR_DATES:
             for ref in (datetime(d.year, d.month, d.day, 0, 0), datetime(d.year, d.month, d.day, 23, 59, 59), datetime(d.year, d.month, d.day, 0, 1)):
